@@ -347,9 +347,9 @@ func consumingFuncs(c *core.Ctx, m *wireModel) map[*ssa.Function]bool {
 			for _, s := range seqs {
 				one := false
 				for _, e := range s {
-					if strings.HasPrefix(e, "loop:") {
-						continue
-					}
+					// every sequence is one concrete path: an event recorded inside a loop was executed on
+					// this path (the path with zero iterations is a sequence of its own)
+					e = strings.TrimPrefix(e, "loop:")
 					if strings.HasPrefix(e, "alt{") {
 						// every alternative must consume
 						allAlt := true
@@ -1335,7 +1335,10 @@ func checkSkipRead(c *core.Ctx, l *core.Ledger, m *wireModel) {
 				}
 				continue
 			}
-			l.Add(core.Obligation{Rule: "SKIP=READ", Key: key, Pos: c.Rel(f.Pos()), Status: st(dedupShapes(got) == dedupShapes(want)),
+			// a struct is header (value header)*: whether the header read sits before the loop and at its
+			// end, or once at its top, is the same sequence; the repetition is carried by the value skip
+			hdrNorm := func(s string) string { return strings.ReplaceAll(s, "loop:u8→", "u8→") }
+			l.Add(core.Obligation{Rule: "SKIP=READ", Key: key, Pos: c.Rel(f.Pos()), Status: st(dedupShapes(hdrNorm(got)) == dedupShapes(hdrNorm(want))),
 				Detail: "bytes consumed when skipping this type; extracted " + got + "; Thrift row " + want})
 		}
 	} else {
